@@ -675,6 +675,120 @@ func ackRace(ctx *core.Ctx, bin string, idx int) {
 	}
 }
 
+// hookChurn: a webhook is deleted and re-created under the same name with a new
+// endpoint while writes continue. Messages caused by writes applied after the
+// re-creation belong to the NEW hook: they must arrive at the new endpoint,
+// complete and in write order, and never at the old endpoint. A sleep at the
+// schedule point in the webhook sender (between its closed test and its queue
+// read) makes the old sender's last round overlap the re-creation.
+func hookChurn(ctx *core.Ctx, bin string, idx int) {
+	r := ctx.SubRng(int64(idx) + 120000)
+	env := []string{fmt.Sprintf("T38_VERIF_POINTS=hook.beforeProc=sleep:%d", 5+r.Intn(40))}
+	s, err := srv.Start(srv.Opts{Bin: bin, Env: env})
+	if err != nil {
+		ctx.Inconclusive(err.Error())
+		return
+	}
+	defer s.Kill9()
+	ep, err := notif.NewEndpoint()
+	if err != nil {
+		ctx.Inconclusive(err.Error())
+		return
+	}
+	defer ep.Close()
+	c, err := respc.Dial(s.Addr(), 5*time.Second)
+	if err != nil {
+		ctx.Inconclusive(err.Error())
+		return
+	}
+	defer c.Close()
+	c.Timeout = 30 * time.Second
+	rounds := 4 + r.Intn(4)
+	for round := 0; round < rounds; round++ {
+		oldPath := fmt.Sprintf("/churn%d_%d", idx, round)
+		newPath := fmt.Sprintf("/churn%d_%d", idx, round+1)
+		if round == 0 {
+			if rep, err := c.Do(append([]string{"SETHOOK", "hc", ep.URL(oldPath)}, fence("inside")...)...); err != nil || rep.IsErr() {
+				ctx.Inconclusive("sethook failed")
+				return
+			}
+		}
+		// traffic for the current hook
+		for i := 0; i < 3+r.Intn(5); i++ {
+			c.Do("SET", "fleet", "o"+strconv.Itoa(i%3), "FIELD", "tok", fmt.Sprintf("r%d-a%d", round, i), "POINT", "1", "1")
+		}
+		time.Sleep(time.Duration(r.Intn(30)) * time.Millisecond)
+		// delete and re-create under the same name with the next endpoint
+		if rep, err := c.Do("DELHOOK", "hc"); err != nil || rep.IsErr() {
+			ctx.Inconclusive("delhook failed")
+			return
+		}
+		if rep, err := c.Do(append([]string{"SETHOOK", "hc", ep.URL(newPath)}, fence("inside")...)...); err != nil || rep.IsErr() {
+			ctx.Inconclusive("sethook failed")
+			return
+		}
+		var want []string
+		n := 4 + r.Intn(6)
+		for i := 0; i < n; i++ {
+			tok := fmt.Sprintf("r%d-b%d", round, i)
+			if rep, err := c.Do("SET", "fleet", "o"+strconv.Itoa(i%3), "FIELD", "tok", tok, "POINT", "1", "1"); err != nil || rep.IsErr() {
+				ctx.Inconclusive("set failed")
+				return
+			}
+			want = append(want, tok)
+		}
+		// marker for the new hook
+		if rep, err := c.Do("SET", "fleet", "marker:"+strconv.Itoa(round), "FIELD", "tok", "MARK", "POINT", "1", "1"); err != nil || rep.IsErr() {
+			ctx.Inconclusive("marker failed")
+			return
+		}
+		msgs, v, why := ep.Stream(newPath).Await(isMarkerID, notif.WaitOpts{Addr: s.Addr(), Watchdog: 30 * time.Second})
+		ctx.Eval(1)
+		var got []string
+		for _, m := range msgs {
+			if t := tokOf(m); t != "" && !isMarkerID(m) {
+				got = append(got, t)
+			}
+		}
+		replay := map[string]any{"round": round, "want": want, "got_new_endpoint": got}
+		switch v {
+		case notif.Inconclusive:
+			ctx.Inconclusive("hook churn: " + why)
+			return
+		case notif.Lost:
+			for _, m := range ep.Stream(oldPath).Drain() {
+				if t := tokOf(m); strings.HasPrefix(t, fmt.Sprintf("r%d-b", round)) || t == "MARK" {
+					ctx.Violation("misdelivered:webhook-recreated", fmt.Sprintf("hook deleted and re-created under the same name: notification %s of a write applied after the re-creation was delivered to the OLD hook's endpoint and the new endpoint received nothing", t), replay)
+					return
+				}
+			}
+			ctx.Violation("lost:webhook-recreated:marker", fmt.Sprintf("hook re-created under the same name: the marker for the new hook never arrived at the new endpoint (%s); it received %v, expected %v first", why, got, want), replay)
+			return
+		}
+		// messages of the previous phase may legitimately still be in the queue of the name and go to the new hook; judge only the b-tokens
+		var gotB []string
+		for _, t := range got {
+			if strings.HasPrefix(t, fmt.Sprintf("r%d-b", round)) {
+				gotB = append(gotB, t)
+			}
+		}
+		if d := exactSeq(gotB, want); d != "" {
+			cls := strings.Fields(strings.SplitN(d, ":", 2)[0])[0]
+			ctx.Violation(cls+":webhook-recreated", fmt.Sprintf("hook deleted and re-created under the same name: the new endpoint did not receive exactly the notifications of the writes applied after the re-creation, in order: %s", d), replay)
+			return
+		}
+		// the old endpoint must not have received any of them
+		for _, m := range ep.Stream(oldPath).Drain() {
+			if t := tokOf(m); strings.HasPrefix(t, fmt.Sprintf("r%d-b", round)) {
+				ctx.Violation("misdelivered:webhook-recreated", fmt.Sprintf("hook deleted and re-created under the same name: notification %s of a write applied after the re-creation was delivered to the OLD hook's endpoint", t), replay)
+				return
+			}
+		}
+		ctx.Distinct(fmt.Sprintf("churn|%d", n))
+	}
+	ctx.Count("hook_churn_rounds", int64(rounds))
+}
+
 // Run is the C10 check.
 func Run(ctx *core.Ctx) {
 	ctx.Rule = "one fenced collection with channels c1 (all objects) and c2 (MATCH w0*), a webhook h1 on a scripted local endpoint and 0-2 live fences, all `DETECT inside` over the whole world so that every SET produces exactly one notification carrying the write's unique token; 1-8 concurrent writers, 0-3 PUBLISH publishers, an exact and a pattern subscriber from the start, 0-3 subscribers that subscribe and leave while traffic flows, webhook failure patterns {none, refuse (listener closed 0.3-1.5 s), 5xx x k, refuse then 5xx, hang > 5 s (thorough)}; phases end with markers (PUBLISH on the same channels; a marker object for webhook/live). Oracle: the token sequence delivered to each receiver must equal the order of the causing SETs in appendonly.aof exactly (no loss, no duplicate among 2xx-answered requests, in order); PUBLISH per publisher FIFO; a mid-traffic subscriber's sequence must be a contiguous slice of the log order covering every write called after its acknowledgement and acknowledged before it left. non-trivial = a receiver that got >= 2 messages from >= 2 writers, or any outage; distinct key = (receiver kind, configuration)"
@@ -711,6 +825,9 @@ func Run(ctx *core.Ctx) {
 	wg.Wait()
 	for i := 0; i < ctx.Pick(2, 20); i++ {
 		ackRace(ctx, bin, i)
+	}
+	for i := 0; i < ctx.Pick(3, 30); i++ {
+		hookChurn(ctx, bin, i)
 	}
 	if ctx.Thorough() {
 		if rbin, err := srv.Build("race"); err == nil {
